@@ -44,7 +44,8 @@ def cube(times, seed):
     a[rs.rand(2, 2, T) < 0.12] = 0
     if T > 3:
         a[0, 1, rs.randint(0, T)] = ND
-    return xr.DataArray(a, dims=("y", "x", "time"), coords={"time": [stamp(t) for t in times]}, attrs={"nodata": ND})
+    da = xr.DataArray(a, dims=("y", "x", "time"), coords={"time": [stamp(t) for t in times]}, attrs={"nodata": ND})
+    return da.transpose(*[("y", "x", "time"), ("time", "y", "x"), ("y", "time", "x")][seed % 3])
 
 
 def flat(r):
